@@ -320,6 +320,13 @@ impl ServerState {
     /// this process until `is_compiling` becomes false.
     pub async fn wait_for_parsing(&self) {
         loop {
+            // Register for the notification *before* inspecting the state. `notify_waiters()` stores
+            // no permit, so a notification sent between the checks below and the `await` would
+            // otherwise be lost and this task would wait forever although nothing is compiling.
+            let notified = self.finished_compilation.notified();
+            tokio::pin!(notified);
+            notified.as_mut().enable();
+
             // Check both the is_compiling flag and the last_compilation_state.
             // Wait if is_compiling is true or if the last_compilation_state is Uninitialized.
             #[cfg(feature = "verif")]
@@ -338,7 +345,7 @@ impl ServerState {
             // We are still compiling, lets wait to be notified.
             #[cfg(feature = "verif")]
             sway_core::verif_hooks::point("wfp.before_notified");
-            self.finished_compilation.notified().await;
+            notified.await;
         }
     }
 
